@@ -188,6 +188,11 @@ impl ShardOut {
     }
 }
 
+/// root of the verification tree (evidence, replays, known findings); /verif unless VCHECK_ROOT is set
+pub fn root() -> String {
+    std::env::var("VCHECK_ROOT").unwrap_or_else(|_| "/verif".to_string())
+}
+
 pub fn truncate(s: &str, n: usize) -> String {
     if s.len() <= n {
         s.to_string()
